@@ -145,6 +145,16 @@ type c17HoldsBadSlice struct {
 	Yy int
 }
 
+// mutually recursive types with an unsupported field: generating c17RecBad completes the functions for
+// *c17RecBad2, c17RecBad2 and *c17RecBad (which captured c17RecBad's placeholder) before it fails
+type c17RecBad struct {
+	Aa *c17RecBad2
+	Ch chan int
+}
+type c17RecBad2 struct {
+	Bb *c17RecBad
+}
+
 var c17StaticTypes = []reflect.Type{
 	reflect.TypeOf(c17Scalars{}), reflect.TypeOf(c17List{}), reflect.TypeOf(c17Tree{}), reflect.TypeOf(c17A{}),
 	reflect.TypeOf(c17B{}), reflect.TypeOf(c17Wide{}), reflect.TypeOf(c17Embed{}), reflect.TypeOf(c17Inner{}),
@@ -1189,7 +1199,10 @@ func c17Classify(side string, calls []c17ScCall, raws []c17Raw) []c17Obs {
 		_, bad := c17ReachesBad(side, call.Typ)
 		o := c17Obs{Class: "ok", Kind: raws[k].kind, Same: ok && raws[k].res.same(alone)}
 		if raws[k].res.Err && bad {
+			// the generator's error (now or replayed by a placeholder): what was written / built before the
+			// error is not a result, only "it is an error" is compared
 			o.Class = "panic"
+			o.Same = ok && alone.Err
 		}
 		obs = append(obs, o)
 	}
@@ -1279,6 +1292,7 @@ var c17BadTypes = []reflect.Type{
 	reflect.TypeOf(c17BadChan{}), reflect.TypeOf(c17BadFunc{}), reflect.TypeOf(c17BadCplx{}), reflect.TypeOf(c17HoldsBad{}),
 	reflect.TypeOf(c17HoldsBadSlice{}), reflect.TypeOf([]c17BadChan{}), reflect.TypeOf(map[string]*c17BadFunc{}),
 	reflect.TypeOf(make(chan int)), reflect.TypeOf(complex64(0)), reflect.TypeOf(&c17HoldsBad{}),
+	reflect.TypeOf(c17RecBad{}), reflect.TypeOf(c17RecBad2{}),
 }
 
 // c17SeqScenario: the calls run one after the other on one new session (each waits for the previous one to
@@ -1443,7 +1457,7 @@ func runC17(c *Ctx) {
 		}
 	}
 	if raceBin != "" {
-		rcombos := []combo{{8, 4, "separate"}, {8, 4, "fresh"}, {8, 2, "shared"}, {16, 8, "shared-cold"}, {16, 8, "caches"}, {4, 1, "shared-cold"}}
+		rcombos := []combo{{8, 4, "separate"}, {8, 2, "shared"}, {16, 8, "shared-cold"}, {16, 8, "caches"}}
 		if c.Thorough() {
 			rcombos = combos
 		}
@@ -1575,7 +1589,8 @@ func c17Scenarios(c *Ctx, cf *caseFile) {
 			if o.Kind != "" {
 				c.Dist(fmt.Sprintf("scenario/%s/handed-out=%s", side, o.Kind))
 			}
-			in := map[string]string{"side": side, "scenario": label, "call": fmt.Sprint(i), "type": calls[i].Typ.String()}
+			in := map[string]string{"side": side, "scenario": label, "call": fmt.Sprint(i), "type": calls[i].Typ.String(),
+				"after": calls[0].Typ.String(), "empty_value": fmt.Sprint(calls[i].Val.IsZero())}
 			what := "marshal"
 			if side == "build" {
 				what = "unmarshal"
@@ -1628,6 +1643,24 @@ func c17Scenarios(c *Ctx, cf *caseFile) {
 				check(side, label, calls, c17SeqScenario(c, cf, side, calls, label), false)
 			}
 		}
+		// (b2) pinned: the recursive pair with an unsupported field. After the failed first use of c17RecBad the
+		// cache keeps generated functions that captured its placeholder.
+		{
+			rb, rb2 := reflect.TypeOf(c17RecBad{}), reflect.TypeOf(c17RecBad2{})
+			for variant := 0; variant < 3; variant++ {
+				var calls []c17ScCall
+				switch variant {
+				case 0:
+					calls = []c17ScCall{{rb, c17Full(rb, 0)}, {rb2, reflect.New(rb2).Elem()}, {rb2, c17Full(rb2, 2)}, {rb, c17Full(rb, 0)}}
+				case 1:
+					calls = []c17ScCall{{rb2, reflect.New(rb2).Elem()}, {rb2, reflect.New(rb2).Elem()}, {rb, c17Full(rb, 0)}}
+				case 2:
+					calls = []c17ScCall{{rb, c17Full(rb, 0)}, {reflect.PtrTo(rb2), c17Full(reflect.PtrTo(rb2), 1)}, {reflect.SliceOf(rb), reflect.New(reflect.SliceOf(rb)).Elem()}}
+				}
+				label := fmt.Sprintf("recbad-%d", variant)
+				check(side, label, calls, c17SeqScenario(c, cf, side, calls, label), false)
+			}
+		}
 		// (c) concurrent groups on supported types: 2..3 goroutines, 1..2 calls each, same cold types.
 		// The model explores every schedule of these, so the types are kept small (few cache requests).
 		small, tiny := []reflect.Type{}, []reflect.Type{}
@@ -1668,6 +1701,11 @@ func c17Scenarios(c *Ctx, cf *caseFile) {
 		for n := 0; n < c.Pick(6, 40); n++ {
 			bt := c17BadTypes[r.Intn(5)]
 			threads := [][]c17ScCall{{{bt, c17Full(bt, 3)}}, {{bt, c17Full(bt, 3)}}}
+			if n%3 == 2 {
+				// the other goroutine asks for a holder of the unsupported type with an empty value
+				bt = c17BadTypes[r.Intn(3)]
+				threads = [][]c17ScCall{{{bt, c17Full(bt, 3)}}, {{reflect.SliceOf(bt), reflect.New(reflect.SliceOf(bt)).Elem()}}}
+			}
 			label := fmt.Sprintf("conc-bad-%d", n)
 			obs := c17ConcScenario(c, cf, side, threads, []int{1, 2, 4}[r.Intn(3)], label)
 			for g := range threads {
@@ -1771,12 +1809,22 @@ func replayC17(r *Replay) (bool, string) {
 		side := r.Input["side"]
 		cfg := configuration.New()
 		is, bs := iterator.NewSession(nil, cfg), builder.NewSession(nil, cfg)
-		call := c17ScCall{t, c17Full(t, 3)}
-		r1, _ := c17RunGroup(side, is, bs, [][]c17ScCall{{call}})
-		r2, _ := c17RunGroup(side, is, bs, [][]c17ScCall{{call}})
-		o1, o2 := c17Classify(side, []c17ScCall{call}, r1[0])[0], c17Classify(side, []c17ScCall{call}, r2[0])[0]
+		// first the call that opened the recorded scenario (by default the same type), then the recorded call
+		first := t
+		if a, ok := c17TypeByName(r.Input["after"]); ok {
+			first = a
+		}
+		call1 := c17ScCall{first, c17Full(first, 3)}
+		call2 := c17ScCall{t, c17Full(t, 3)}
+		if r.Input["empty_value"] == "true" {
+			call2.Val = reflect.New(t).Elem()
+		}
+		r1, _ := c17RunGroup(side, is, bs, [][]c17ScCall{{call1}})
+		r2, _ := c17RunGroup(side, is, bs, [][]c17ScCall{{call2}})
+		o1, o2 := c17Classify(side, []c17ScCall{call1}, r1[0])[0], c17Classify(side, []c17ScCall{call2}, r2[0])[0]
 		okk := o1.Class != "hang" && o2.Class != "hang" && o1.Same && o2.Same
-		return okk, fmt.Sprintf("%s session, type %s, the same call twice: first %s (same as alone: %v), second %s (same as alone: %v)", side, t, o1.Class, o1.Same, o2.Class, o2.Same)
+		return okk, fmt.Sprintf("%s session: first %s => %s (same as alone: %v), then %s (empty value: %v) => %s (same as alone: %v)",
+			side, first, o1.Class, o1.Same, t, r.Input["empty_value"] == "true", o2.Class, o2.Same)
 	}
 	return false, "unknown replay kind " + r.Kind
 }
